@@ -683,9 +683,10 @@ func (f *fileConfig) Reload(opts ...ReloadedConfigDataOption) error {
 	f.mainHash = cfg.mainHash
 	f.rulesConfig = cfg.rulesConfig
 	f.rulesHash = cfg.rulesHash
+	callbacks := append([]ConfigReloadCallback(nil), f.callbacks...)
 	f.mux.Unlock() // can't defer -- we don't want callbacks to deadlock
 
-	for _, cb := range f.callbacks {
+	for _, cb := range callbacks {
 		cb(cfg.mainHash, cfg.rulesHash)
 	}
 	return nil
